@@ -1,5 +1,6 @@
 """C09 — no compressed data can make any decompressor touch invalid memory."""
 from vlib.core import Case
+import os
 from vlib import streams as S, core
 
 ID = "C09"
@@ -77,6 +78,47 @@ def gen_cases(ctx, per_method):
             chunk = r.choice([0, 0, 0, 1, 2, 3])
             out.append(Case(S.dec_op(meth, declen, chunk, r.choice([-1, -1, 0, 1]), sched, data),
                             judge=judge(declen), tags=tags))
+    if ctx.tier == "thorough" and not os.environ.get("VERIF_NO_FUZZ"):
+        out += fuzz_cases(ctx, int(os.environ.get("VERIF_FUZZ_SECONDS", "120")))
+    return out
+
+
+def fuzz_cases(ctx, seconds):
+    """thorough tier: libFuzzer (coverage-guided) on all 14 methods; crashes are findings, the corpus is replayed through C and model"""
+    import os, subprocess, glob
+    bdir = os.path.join(ctx.tmp, "fuzz")
+    os.makedirs(os.path.join(bdir, "corpus"), exist_ok=True)
+    inc = ["-I", core.REPO, "-I", os.path.join(core.REPO, "lib"), "-I", os.path.join(core.REPO, "lib", "public"), "-DHAVE_CONFIG_H", "-w"]
+    srcs = [os.path.join(core.REPO, "lib", f) for f in core.lib_sources()] + [os.path.join(core.HARNESS, "fuzz_decoder.c")]
+    exe = os.path.join(bdir, "fuzz_decoder")
+    r = subprocess.run(["clang", "-O1", "-g", "-fsanitize=fuzzer,address,bounds,null", "-fno-sanitize-recover=all"] + inc + srcs + ["-o", exe],
+                       capture_output=True, text=True)
+    if r.returncode != 0:
+        ctx.extra["fuzz"] = {"error": r.stderr[-500:]}
+        return []
+    # seed corpus: real members of every method
+    seeds = S.seeds(core.lhv_path(), maxlen=4000)
+    for mi, meth in enumerate(S.METHODS):
+        for j, (data, dl) in enumerate(seeds.get(meth, [])[:6]):
+            open(os.path.join(bdir, "corpus", "seed-%s-%d" % (meth, j)), "wb").write(
+                bytes([mi, min(dl, 65535) & 0xff, min(dl, 65535) >> 8, 0]) + data)
+    e = dict(os.environ); e.update(core.SAN_ENV)
+    fr = subprocess.run([exe, os.path.join(bdir, "corpus"), "-max_total_time=%d" % seconds, "-max_len=2048", "-jobs=%d" % core.JOBS,
+                         "-workers=%d" % core.JOBS, "-artifact_prefix=" + bdir + "/crash-", "-print_final_stats=1"],
+                        cwd=bdir, capture_output=True, text=True, env=e, timeout=seconds * 3 + 600)
+    crashes = sorted(glob.glob(os.path.join(bdir, "crash-*")))
+    files = sorted(glob.glob(os.path.join(bdir, "corpus", "*")))
+    ctx.extra["fuzz"] = {"seconds": seconds, "corpus_files": len(files), "crash_artifacts": len(crashes)}
+    out = []
+    for f in crashes + files[:6000]:
+        d = open(f, "rb").read()
+        if len(d) < 4:
+            continue
+        meth = S.METHODS_FUZZ[d[0] % 14]
+        declen = d[1] | (d[2] << 8)
+        k = 1 + (d[3] >> 2) * 37
+        out.append(Case(S.dec_op(meth, declen, d[3] % 4, -1, [k], d[4:]), judge=judge(declen),
+                        tags={"m=" + meth, "fuzz-crash" if f in crashes else "fuzz-corpus"}))
     return out
 
 
@@ -92,7 +134,7 @@ def corpus_cases(ctx):
 
 
 def nontrivial(c):
-    return "hostile" in c.tags or "mutated-corpus" in c.tags
+    return "hostile" in c.tags or "mutated-corpus" in c.tags or "fuzz-corpus" in c.tags or "fuzz-crash" in c.tags
 
 
 def signature(case, c_out, why):
